@@ -175,7 +175,7 @@ def pushData (d : Bytes) : Option Bytes := (Script.pushPrefix d.length).map (· 
 
 /-- Tx.Inscribe's locking script (without enriched OP_RETURN arguments) -/
 def inscriptionScript (pre ct data : Bytes) : Option Bytes := do
-  let o ← pushData "ord".toUTF8.toList
+  let o ← pushData [0x6f, 0x72, 0x64]     -- OrdinalsPrefix = "ord"
   let c ← pushData ct
   let d ← pushData data
   pure (pre ++ [0x00, 0x63] ++ o ++ [0x51] ++ c ++ [0x00] ++ d ++ [0x68])
